@@ -4,6 +4,7 @@ import PgModel.Gen
 import PgGen.C15Quirks
 import PgModel.Nsga2
 import PgModel.GenOps
+import PgModel.GenSched
 open Pg Pg.C15
 
 structure EvoOps where
@@ -164,7 +165,23 @@ def eventOfJ : J → Option Event
   | .arr [.str "f", .int i, .int r] => some (.feedback i.toNat r)
   | _ => none
 
+def pvOfJ : J → Option Sched.PV
+  | .arr [.str "const", .int c] => some (.const c)
+  | .arr [.str "step"] => some .step
+  | _ => none
+
+/-- `{"op": "sched", "phases": [[len, pv], …], "live": [steps…], "rec": [steps…]}` -/
+def handleSched (j : J) : J :=
+  let phases := ((j.getArr? "phases").getD []).filterMap fun p => match p with
+    | .arr [.int l, pv] => (pvOfJ pv).map fun v => (l.toNat, v)
+    | _ => none
+  let steps (k : String) := ((j.getArr? k).getD []).filterMap J.asNat?
+  let out (xs : List (Option Int)) : J := .arr (xs.map optInt)
+  .obj [("live", out (Sched.run stepWiseStateful phases Sched.init (steps "live"))),
+        ("rec", out (Sched.run stepWiseStateful phases Sched.init (steps "rec")))]
+
 def handle (j : J) : J :=
+  if j.getStr? "op" == some "sched" then handleSched j else
   match (j.get? "algo").bind algoOfJ, (j.getArr? "events").bind (·.mapM eventOfJ),
         j.getArr? "space", j.get? "streams", j.getNat? "m" with
   | some (algo, ops), some events, some spaceJ, some streamsJ, some m =>
